@@ -35,6 +35,8 @@ import NeoModel.Proofs.MptRcGoTie
 import NeoModel.Proofs.MptRcGoTie2
 import NeoModel.Proofs.MptRcLayered
 import NeoModel.Proofs.MptRcChain
+import NeoModel.Proofs.MptRcSize
+import NeoModel.Proofs.MptRcSizeNode
 import NeoModel.Proofs.MptRcRead
 import NeoModel.Proofs.MptRcRestore
 import NeoModel.Proofs.MptRcPerm
@@ -695,5 +697,46 @@ theorem is_active_value_translated (b : List UInt8) (flag : UInt8) (c0 c1 c2 c3 
 
 example : Generated.GoFuncs.mptIsActiveValue 7 1 = true ∧ Generated.GoFuncs.mptIsActiveValue 7 0 = false ∧
     Generated.GoFuncs.mptIsActiveValue 4 1 = false := by decide
+
+/-! ## 11. hypotheses about reached states proved as invariants
+
+`Bounded e.2` (every retained trie within the key/value limits), a hypothesis of the read theorems, is
+an invariant of histories whose INPUTS respect the limits (`OpOK` / `EvOK`): trie.go `Put` rejects
+longer keys / values, batches come from Go maps of contract storage items. -/
+
+/-- C11.3c' `gc_safe` with the size bound PROVED instead of assumed: if the inputs of the history
+respect the limits of `Put` / of contract storage (`OpOK`: key ≤ 136 nibbles, value ≤ 65539 bytes,
+batches with distinct keys), every retained trie is `Bounded` — an invariant of the reachable states —
+and the read of every retained root after one more GC(g ≤ hi) is exact. -/
+theorem gc_safe_inputs (H : Bytes → Bytes) (h32 : ∀ b, (H b).length = 32) (ops : List Op) (hh : Heights none ops)
+    (hok : ∀ o ∈ ops, OpOK o)
+    (s : St) (hr : runOps H { mode := .gc } ops = some s) (g : Nat)
+    (e : Nat × Node) (he : e ∈ s.hist) (hge : s.gcAt ≤ e.1) (hg : g ≤ e.1)
+    (hne : e.2.isEmpty = false)
+    (hcf : CollFree H (storeBytes (gc g s.store) ++ nodeEncs H e.2)) (p : Path) (v : Val) :
+    (lookup e.2 p = some v → ∃ n, ∀ fuel, n ≤ fuel → swalk (gc g s.store) fuel (hash H e.2) p = .found v) ∧
+    (∀ fuel, swalk (gc g s.store) fuel (hash H e.2) p = .found v → lookup e.2 p = some v) :=
+  gc_safe H h32 ops hh s hr g e he hge hg hne
+    (hist_bounded (run_sizeInv H .gc rfl ops none _ (inv_init H .gc) (sizeInv_init .gc) hh hok s hr) e he) hcf p v
+
+/-- C11.6d' `node_traceable_roots_readable` with the size bound proved from the inputs of the blocks. -/
+theorem node_traceable_roots_readable_inputs (H : Bytes → Bytes) (h32 : ∀ b, (H b).length = 32)
+    (cfg : GcCfg) (mtb : Nat) (evs : List ChainEv) (hok : ∀ ev ∈ evs, EvOK ev) (c : Chain)
+    (hc : runChain H { cfg := cfg, mtb := mtb } evs = some c)
+    (e : Nat × Node) (he : e ∈ c.hist) (htr : traceable e.1 (c.next - 1) c.mtb = true)
+    (hne : e.2.isEmpty = false)
+    (hcf : CollFree H (storeBytes c.lay.view ++ nodeEncs H e.2)) (p : Path) (v : Val) :
+    (lookup e.2 p = some v → ∃ n, ∀ fuel, n ≤ fuel → lwalk c.lay fuel (hash H e.2) p = .found v) ∧
+    (∀ fuel, lwalk c.lay fuel (hash H e.2) p = .found v → lookup e.2 p = some v) := by
+  obtain ⟨c', s, top, pn, hc', hs, hz⟩ := sim_run_size H evs _ _ none 0 (sim_init H cfg mtb) (sizeInv_init .gc) hok
+  rw [hc] at hc'; cases hc'
+  exact node_traceable_roots_readable H h32 cfg mtb evs c hc e he htr hne
+    (hist_bounded hz e (by rw [hs.hist]; exact he)) hcf p v
+
+-- non-vacuity: the inputs of the histories used above are within the limits
+example : ∀ o ∈ gcOps, OpOK o := by
+  intro o ho
+  simp only [gcOps, List.mem_cons, List.mem_nil_iff, or_false] at ho
+  rcases ho with rfl | rfl | rfl | rfl <;> simp [OpOK, SubOK, maxPathLength, maxValueLength]
 
 end NeoModel.C11
